@@ -22,11 +22,12 @@ FRAGMENT = '\\textbf{N}\\begin{q}z\\end{q}$m$\\w'
 NEWS = [
     [('s', 'NEW')], [('s', ' new text ')], [('n', 0)], [('n', 1)], [('s', 'A'), ('n', 2)], [('n', 0), ('s', ' and '), ('n', 1)],
     [('n', 3), ('s', ' ')], [('s', '')], [('s', 'x'), ('s', 'y'), ('s', 'z')],
+    [('s', '('), ('self', 0), ('s', ')')], [('self', 0), ('s', '!')],
     [('soup', '\\p\\q'), ('s', 'Z')], [('s', 'A'), ('soup', '\\p{1} and $m$'), ('n', 0)], [('soup', ''), ('s', 'E')],
 ]
 
 
-def new_material(spec):
+def new_material(spec, target=None, target_text=''):
     """-> (list of objects to pass, their text) from a fresh fragment parse (no aliasing between edits)."""
     from TexSoup import TexSoup
     frag = None
@@ -36,6 +37,11 @@ def new_material(spec):
         if kind == 's':
             out.append(v)
             text += v
+        elif kind == 'self':
+            if target is None:
+                continue
+            out.append(target)       # the replaced node itself, wrapped in new material
+            text += target_text
         elif kind == 'soup':
             whole = TexSoup(v)      # a whole parsed fragment used as one new node
             out.append(whole)
@@ -97,13 +103,17 @@ def fresh(src, case):
 def run_edit(src, op, a, b, newspec, case, where=None, index=None, cpos=None):
     """Apply one edit on a fresh parse and compare with the string splice."""
     soup = fresh(src, case)
-    new, newtext = new_material(newspec) if newspec is not None else ([], '')
+    new, newtext = ([], '')
+    if newspec is not None and op not in ('replace_with', 'parent.replace'):
+        new, newtext = new_material(newspec)
     refused_ok = False
     try:
         if op in ('delete', 'replace_with', 'parent.replace', 'parent.remove'):
             t = locate(soup, a)
             if t is None or str(t) != src[a:b]:
                 raise H.HarnessError('cannot locate target at %d in %r' % (a, src))
+            if newspec is not None and op in ('replace_with', 'parent.replace'):
+                new, newtext = new_material(newspec, target=t, target_text=src[a:b])
             if op == 'delete':
                 t.delete()
                 want = src[:a] + src[b:]
